@@ -1,4 +1,4 @@
-"""C12 -- closing and reopening a project loses nothing (writer/reader agreement R12.1-R12.15)."""
+"""C12 -- closing and reopening a project loses nothing (writer/reader agreement R12.1-R12.16)."""
 from __future__ import annotations
 
 import ast
@@ -23,6 +23,7 @@ EXPLANATION = (
     ' R12.12 (=R11.9): saved history slots come back in the saved order and into the list they were written from.'
     ' R12.13: a reloaded create/remove change gets a Folder exactly when the saved folder flag is set.'
 )
+EXPLANATION += ' R12.15: what do() finds out and undo() needs is saved.  R12.16 (=R16.14): the newline convention is captured after a read.'
 EXPLANATION += ' R12.14: a change kind that can hold a folder saves the kind and is reloaded with it.'
 ASSUMPTIONS = ["taint is flow-insensitive with control dependence on if-tests", "json.dumps/loads behave as documented"]
 
@@ -143,6 +144,9 @@ def check(ctx, res) -> None:
     _resource_kind_rule(ctx, res)
     _kind_is_saved_rule(ctx, res)
     _undo_state_is_saved_rule(ctx, res)
+    from .c16 import newline_capture_rule
+
+    newline_capture_rule(ctx, res, "R12.16")
 
 
 def _resource_kind_rule(ctx, res) -> None:
